@@ -63,9 +63,27 @@ def task_parse(pr, repo):
     pr.explore(ex, t_bad, 'parse_res_string malformed')
 
     def t_list(ex, ctx):
-        r = ex.call_function(repo.func('propka.lib.parse_res_list'), ['A:10,B:11A,_:-5'])
-        ctx.oblige('PS: parse_res_list gives one triple per entry, in order', r == [('A', 10, ' '), ('B', 11, 'A'), ('_', -5, ' ')])
+        r = ex.call_function(repo.func('propka.lib.parse_res_list'), ['A:10,B:11A,_:-5,e:29,E:29,A:7b'])
+        ctx.oblige('PS: parse_res_list gives one triple per entry, in order; chain ids and insertion codes keep their case',
+                   r == [('A', 10, ' '), ('B', 11, 'A'), ('_', -5, ' '), ('e', 29, ' '), ('E', 29, ' '), ('A', 7, 'b')])
     pr.explore(ex, t_list, 'parse_res_list')
+
+    def t_list_sym(ex, ctx):
+        # every entry reaches parse_res_string exactly as written (no case folding, trimming or other normalisation)
+        seen = []
+        ex.contracts['propka.lib.parse_res_string'] = lambda ex_, c_, f_, a, k, so: (seen.append(a[0]), ('X', len(seen), ' '))[1]
+        segs = []
+        for j in range(2):
+            cs = [I('s%d_%d' % (j, i)) for i in range(4)]
+            for c in cs:
+                ctx.assume(And(c >= 33, c <= 126, c != 44))
+            segs.append(cs)
+        r = ex.call_function(repo.func('propka.lib.parse_res_list'), [mk_str(segs[0] + [44] + segs[1])])
+        ok = len(seen) == 2 and len(r) == 2
+        ctx.oblige('PS: parse_res_list hands every comma-separated entry to parse_res_string unchanged',
+                   And(ok, *[ex.equals(seen[j], mk_str(segs[j])) for j in range(2)]) if ok else False)
+    pr.explore(ex, t_list_sym, 'parse_res_list symbolic entries')
+    ex.contracts.pop('propka.lib.parse_res_string', None)
 
 
 def task_init_group(pr, repo):
@@ -167,7 +185,9 @@ def task_make_copy(pr, repo):
 
 
 def run(pr, repo):
-    pr.parallel([(task_parse, ()), (task_init_group, ()), (task_setup_and_add, ()), (task_make_copy, ())])
+    from . import C16
+    # an unlisted residue still acts as charge / hydrogen-bond partner: pair terms are decided per term (iterative pairs included)
+    pr.parallel([(task_parse, ()), (task_init_group, ()), (task_setup_and_add, ()), (task_make_copy, ()), (C16.task_iterative, ())])
     c = frames.census(repo)
     readers = c.readers('titrate_only')
     extra = sorted(readers - {CC + '.init_group', 'propka.lib.loadOptions'})
